@@ -369,3 +369,52 @@ M('C04', 'benign: rename einsum letters', 'evaluable.py', "        return -einsu
 M('C04', 'benign: reorder einsum operands', 'evaluable.py', "        return einsum('A,Aji,AijB->AB', self, inverse(self.func), derivative(self.func, var, seen))", "        return einsum('Aji,A,AijB->AB', inverse(self.func), self, derivative(self.func, var, seen))", expect='silent')
 M('C04', 'benign: axis written via func.ndim', 'evaluable.py', "        return sum(derivative(self.func, var, seen), self.ndim)", "        return sum(derivative(self.func, var, seen), self.func.ndim-1)", expect='silent')
 M('C04', 'benign: tan derivative as 1 + tan^2', 'evaluable.py', "    deriv = lambda x: Cos(x)**astype(-2, x.dtype),", "    deriv = lambda x: astype(1, x.dtype) + Tan(x)**astype(2, x.dtype),", expect='silent')
+
+# ---------------------------------------------------------------- C02 / C03 / C06
+M('C02', 'Monomial multiplies a compiled dependency in place', 'evaluable.py', "        block.assign_to(out, _pyast.Variable('numpy').get_attr('array').call(values, copy=_pyast.LiteralBool(True)))", "        block.assign_to(out, _pyast.Variable('numpy').get_attr('asarray').call(values))", rule='R02.1')
+M('C02', 'Monomial mutates the compiled values directly', 'evaluable.py', "            block.array_imul(out, arg.get_item(index))", "            block.array_imul(values, arg.get_item(index))", rule='R02.1')
+M('C02', 'zero fill deleted in Inflate._compile_with_out', 'evaluable.py',
+  "        if mode == 'assign':\n            builder.get_block_for_evaluable(self, block_id=out_block_id, comment='zero').array_fill_zeros(out)\n        indices = _pyast.Tuple((_pyast.Variable('slice')",
+  "        indices = _pyast.Tuple((_pyast.Variable('slice')", rule='R02.2')
+M('C02', 'Diagonalize forwards without zero fill', 'evaluable.py',
+  "        out_diag = _pyast.Variable('numpy').get_attr('einsum').call(_pyast.LiteralStr('...ii->...i'), out)\n        if mode == 'assign':\n            builder.get_block_for_evaluable(self, block_id=out_block_id, comment='zero').array_fill_zeros(out)\n",
+  "        out_diag = _pyast.Variable('numpy').get_attr('einsum').call(_pyast.LiteralStr('...ii->...i'), out)\n", rule='R02.2')
+M('C02', 'LoopSum fills zeros only for iadd', 'evaluable.py',
+  "        if mode == 'assign':\n            builder.get_block_for_evaluable(self, block_id=out_block_id, comment='zero').array_fill_zeros(out)\n        index_block_id = builder.get_block_id(self.index)",
+  "        if mode == 'iadd':\n            builder.get_block_for_evaluable(self, block_id=out_block_id, comment='zero').array_fill_zeros(out)\n        index_block_id = builder.get_block_id(self.index)", rule='R02.2')
+M('C02', 'Add calls the in-place protocol of its terms directly', 'evaluable.py', "        for func in self.funcs:\n            builder.compile_with_out(func, out, out_block_id, 'iadd')", "        for func in self.funcs:\n            func._compile_with_out(builder, out, out_block_id, 'iadd')", rule='R02.3')
+M('C02', 'dependents escape dropped', 'evaluable.py', "        if self.ndependents[evaluable] > 1 or evaluable_block_id < out_block_id or evaluable._compile_with_out(", "        if evaluable_block_id < out_block_id or evaluable._compile_with_out(", rule='R02.3')
+M('C02', 'in-place call tried before the escapes', 'evaluable.py', "        if self.ndependents[evaluable] > 1 or evaluable_block_id < out_block_id or evaluable._compile_with_out(self, out, out_block_id, mode) is NotImplemented:",
+  "        if evaluable._compile_with_out(self, out, out_block_id, mode) is NotImplemented or self.ndependents[evaluable] > 1 or evaluable_block_id < out_block_id:", rule='R02.3')
+M('C02', 'GetItem.variables forgets the item', '_pyast.py', "        return self.value.variables | self.item.variables", "        return self.value.variables", rule='R02.4')
+M('C02', 'Call.variables forgets keyword arguments', '_pyast.py', "        return frozenset().union(self.func.variables, *(arg.variables for arg in self.args), *(arg.variables for arg in self.kwargs.values()))", "        return frozenset().union(self.func.variables, *(arg.variables for arg in self.args))", rule='R02.4')
+M('C02', 'If.filter does not recurse into else', '_pyast.py', "            return If(self.condition, self.body.filter(f), self.else_body.filter(f))", "            return If(self.condition, self.body.filter(f), self.else_body)", rule='R02.4')
+M('C02', 'With.filter drops the as_ clause', '_pyast.py', "            return With(self.item, self.body.filter(f), self.as_, self.omit_if_body_is_empty)", "            return With(self.item, self.body.filter(f))", rule='R02.4')
+M('C02', 'BinOp prints rhs unparenthesised', '_pyast.py', "        return f'{self.lhs.py_paren_expr} {self.op} {self.rhs.py_paren_expr}'", "        return f'{self.lhs.py_paren_expr} {self.op} {self.rhs.py_expr}'", rule='R02.5')
+M('C02', 'Inflate drops length from dependencies', 'evaluable.py', "    @property\n    def dependencies(self):\n        return self.func, self.dofmap, self.length", "    @property\n    def dependencies(self):\n        return self.func, self.dofmap", rule='R02.6')
+M('C02', 'benign: reorder fill and index compilation in Inflate', 'evaluable.py',
+  "        if mode == 'assign':\n            builder.get_block_for_evaluable(self, block_id=out_block_id, comment='zero').array_fill_zeros(out)\n        indices = _pyast.Tuple((_pyast.Variable('slice').call(_pyast.Variable('None')),)*(self.ndim-1) + (builder.compile(self.dofmap),))\n        values = builder.compile(self.func)",
+  "        values = builder.compile(self.func)\n        indices = _pyast.Tuple((_pyast.Variable('slice').call(_pyast.Variable('None')),)*(self.ndim-1) + (builder.compile(self.dofmap),))\n        if mode == 'assign':\n            builder.get_block_for_evaluable(self, block_id=out_block_id, comment='zero').array_fill_zeros(out)", expect='silent')
+M('C03', 'setflags freeze loop dropped', 'evaluable.py', "        for v in cache_vars:\n            main.append(_pyast.Exec(v.get_attr('setflags').call(write=_pyast.LiteralBool(False))))\n", "", rule='R03.2')
+M('C03', 'cache predicate ignores isconstant', 'evaluable.py', "            if isinstance(evaluable, Array) and evaluable.isconstant:", "            if isinstance(evaluable, Array):", rule='R03.2')
+M('C03', 'first_run never cleared', 'evaluable.py', "        main.append(_pyast.Assign(first_run, _pyast.LiteralBool(False)))\n", "", rule='R03.2')
+M('C03', 'rerun body filtered after the freeze', 'evaluable.py',
+  "        main_rerun = main.filter(lambda stmts: _pyast.Block() if stmts in rerun_skip_blocks else None)\n        first_run = _pyast.Variable('first_run')\n        # Make all cached results immutable.\n        for v in cache_vars:\n            main.append(_pyast.Exec(v.get_attr('setflags').call(write=_pyast.LiteralBool(False))))\n",
+  "        first_run = _pyast.Variable('first_run')\n        # Make all cached results immutable.\n        for v in cache_vars:\n            main.append(_pyast.Exec(v.get_attr('setflags').call(write=_pyast.LiteralBool(False))))\n        main_rerun = main.filter(lambda stmts: _pyast.Block() if stmts in rerun_skip_blocks else None)\n", rule='R03.2')
+M('C03', 'Guard becomes cacheable', 'evaluable.py', "    @property\n    def isconstant(self):\n        return False  # avoid simplifications", "    @property\n    def isconstant(self):\n        return self.fun.isconstant  # avoid simplifications", rule='R03.3')
+M('C03', 'Loop.arguments keeps the index of another loop', 'evaluable.py', "        return super().arguments - frozenset({self.index})", "        return super().arguments - frozenset({self.index, self.length})", rule='R03.3')
+M('C03', 'argument ingested without asarray', 'evaluable.py', "        block.assign_to(out, _pyast.Variable('numpy').get_attr('asarray').call(builder.get_argument(self.name), dtype=self.ast_dtype))", "        block.assign_to(out, builder.get_argument(self.name))", rule='R03.4')
+M('C03', 'System caches a non-constant jacobian', 'solver.py', "                jac = matrix.assemble_block_csr(jac_blocks)\n            res = numpy.concatenate(res_blocks)\n            res += jac @ numpy.concatenate(",
+  "                jac = matrix.assemble_block_csr(jac_blocks)\n                self.__cache['jacobian'] = jac\n            res = numpy.concatenate(res_blocks)\n            res += jac @ numpy.concatenate(", rule='R03.5')
+M('C06', 'InRange guard uses the upper bound of the length', 'evaluable.py', "        if 0 <= lower_index <= upper_index < lower_length:\n            return self.index", "        if 0 <= lower_index <= upper_index < upper_length:\n            return self.index", rule='R06.1')
+M('C06', 'InRange guard off by one', 'evaluable.py', "        if 0 <= lower_index <= upper_index < lower_length:\n            return self.index", "        if 0 <= lower_index <= upper_index <= lower_length:\n            return self.index", rule='R06.1')
+M('C06', 'Minimum returns the wrong operand', 'evaluable.py', "            if upper1 <= lower2:\n                return self.x\n            elif upper2 <= lower1:\n                return self.y\n        return super()._simplified()\n\n    def _intbounds_impl(self):\n        lower1, upper1 = self.x._intbounds\n        lower2, upper2 = self.y._intbounds\n        return min(",
+  "            if upper1 <= lower2:\n                return self.y\n            elif upper2 <= lower1:\n                return self.x\n        return super()._simplified()\n\n    def _intbounds_impl(self):\n        lower1, upper1 = self.x._intbounds\n        lower2, upper2 = self.y._intbounds\n        return min(", rule='R06.1')
+M('C06', 'Mod guard ignores negative dividends', 'evaluable.py', "            if 0 <= lower_dividend and upper_dividend < lower_divisor:\n                return self.dividend\n        return super()._simplified()", "            if upper_dividend < lower_divisor:\n                return self.dividend\n        return super()._simplified()", rule='R06.1')
+M('C06', 'NormDim shift without exact length', 'evaluable.py', "        if isinstance(lower_length, int) and lower_length == upper_length and -lower_length <= lower_index and upper_index < 0:", "        if isinstance(lower_length, int) and -lower_length <= lower_index and upper_index < 0:", rule='R06.1')
+M('C06', '_const_uniform for a non-degenerate range', 'evaluable.py', "            return lower if lower == upper else None", "            return lower if lower <= upper else None", rule='R06.1')
+M('C06', 'Negative bounds not swapped', 'evaluable.py', "        lower, upper = self.arg._intbounds\n        return -upper, -lower", "        lower, upper = self.arg._intbounds\n        return -lower, -upper", rule='R06.4')
+M('C06', 'Maximum upper bound uses min', 'evaluable.py', "        return max(lower1, lower2), max(upper1, upper2)", "        return max(lower1, lower2), min(upper1, upper2)", rule='R06.4')
+M('C06', 'LoopIndex upper bound is the length', 'evaluable.py', "        lower_length, upper_length = self.length._intbounds\n        return 0, max(0, upper_length - 1)\n\n    def _simplified(self):\n        if isunit(self.length):", "        lower_length, upper_length = self.length._intbounds\n        return 0, max(0, lower_length - 1)\n\n    def _simplified(self):\n        if isunit(self.length):", rule='R06.4')
+M('C06', 'benign: chained compare split with and', 'evaluable.py', "        if 0 <= lower_index <= upper_index < lower_length:\n            return self.index", "        if 0 <= lower_index and upper_index < lower_length:\n            return self.index", expect='silent')
+M('C06', 'benign: swap conjunct order in Mod', 'evaluable.py', "            if 0 <= lower_dividend and upper_dividend < lower_divisor:\n                return self.dividend\n        return super()._simplified()", "            if upper_dividend < lower_divisor and lower_dividend >= 0:\n                return self.dividend\n        return super()._simplified()", expect='silent')
